@@ -19,7 +19,7 @@ import (
 // ---- C06: one-way TCP client delivers whole frames, in order, at most once, and recovers ----
 
 func init() {
-	setTier("C06", 30000, 200, 1200000, 1500)
+	setTier("C06", 60000, 240, 1500000, 1800)
 	levelOf["C06"] = "exploration"
 	ruleOf["C06"] = "one run = one seeded scenario (direct or queue mode, 1-4 sender tasks x 2-6 sends of unique packs of mixed type/size/license, 0-3 seeded connection faults) under one seeded schedule, followed by a heal-and-recover phase; oracles O1-O7 over the bytes each simulated connection received, parsed by an independent frame parser; non-trivial = a context switch inside a send or at least one fired fault; distinct = distinct fingerprint of (switch sequence, fault sequence, per-send outcome, received frame order)"
 	assumptionsOf["C06"] = []string{
@@ -31,7 +31,7 @@ func init() {
 	}
 	realComponents["C06"] = []string{"net/oneway.OneWayTcpClient (public API, singleton via GetOneWayTcpClient/Destroy)", "bufio.Writer", "pack encoders (TextPack, LogSinkPack, TagCountPack)", "io.DataOutputX", "util/queue.RequestQueue", "util/hash.Hash64Str"}
 	stubComponents["C06"] = []string{"net.DialTimeout/net.Conn (simnet)", "collector peer (passive sink + independent frame parser)", "sync.Mutex/Cond", "time (virtual clock)", "goroutine scheduler"}
-	probesFor["C06"] = []string{"reconnect_happened", "fault_mid_frame", "blocked_on_lock_held_inside_op", "two_dials_in_flight", "queue_refused_put", "frame_larger_than_buffer", "peer_reset_mid_stream", "write_after_close_lost", "dial_refused", "recovered_after_heal"}
+	probesFor["C06"] = []string{"reconnect_happened", "fault_mid_frame", "blocked_on_lock_held_inside_op", "queue_refused_put", "frame_larger_than_buffer", "peer_reset_mid_stream", "write_after_close_lost", "dial_refused", "recovered_after_heal"}
 	register(&Scenario{Prop: "C06", Name: "healthy", MaxSteps: 3000000, Body: c06Body(false), After: c06After})
 	register(&Scenario{Prop: "C06", Name: "faults", MaxSteps: 3000000, Body: c06Body(true), After: c06After})
 }
@@ -152,7 +152,7 @@ func c06Body(faulty bool) func(rc *RunCtx) {
 			nf = 1 + simrt.ChooseF(3)
 		}
 		for i := 0; i < nf; i++ {
-			switch simrt.ChooseF(7) {
+			switch simrt.ChooseF(9) {
 			case 0:
 				c := simrt.ChooseF(3)
 				planByConn[c] = connFault{"reset", int64(simrt.ChooseF(3000))}
@@ -181,6 +181,14 @@ func c06Body(faulty bool) func(rc *RunCtx) {
 				n.SetMode(addrA, simnet.Refusing)
 				d.Plan = append(d.Plan, "first server refuses connections")
 				simrt.Fault("first_server_down")
+			case 7:
+				k := simrt.ChooseF(6)
+				idleFault[k] = "blackhole_a"
+				d.Plan = append(d.Plan, fmt.Sprintf("first server black-holed and live connection reset after %d sends", k))
+			case 8:
+				k := simrt.ChooseF(8)
+				idleFault[k] = "unblackhole_a"
+				d.Plan = append(d.Plan, fmt.Sprintf("first server reachable again after %d sends", k))
 			}
 		}
 		accept := func(s *simnet.ServerSide) {
@@ -256,6 +264,7 @@ func c06Body(faulty bool) func(rc *RunCtx) {
 			total += k
 		}
 		simrt.SetStepsGuess(int64(total) * 120)
+		pace := simrt.Choose(4) // 0 burst, 1 occasional pauses, 2 slow senders, 3 around whole seconds
 		sentCount := 0
 		doSend := func(task int, it item, phase string) *c06Send {
 			p := c06MakePack(it.id, it.kind, it.size, it.pcode)
@@ -310,6 +319,14 @@ func c06Body(faulty bool) func(rc *RunCtx) {
 							if len(n.Conns) > 0 {
 								n.Conns[len(n.Conns)-1].Reset("peer_reset_idle")
 							}
+						case "blackhole_a":
+							n.SetMode(addrA, simnet.BlackHole)
+							simrt.Fault("first_server_blackholed")
+							if len(n.Conns) > 0 {
+								n.Conns[len(n.Conns)-1].Reset("peer_reset_idle")
+							}
+						case "unblackhole_a":
+							n.SetMode(addrA, simnet.Up)
 						case "servers_down":
 							n.DialFail = 1 + simrt.ChooseF(4)
 							simrt.Fault("all_servers_down")
@@ -318,8 +335,21 @@ func c06Body(faulty bool) func(rc *RunCtx) {
 							}
 						}
 					}
-					if simrt.Chance(1, 4) {
-						simrt.Sleep(time.Duration(1+simrt.Choose(3000)) * time.Millisecond)
+					switch pace {
+					case 1:
+						if simrt.Chance(1, 4) {
+							simrt.Sleep(time.Duration(1+simrt.Choose(3000)) * time.Millisecond)
+						}
+					case 3:
+						// sends timed around multiples of a second (background wake-ups of periodic
+						// goroutines tend to sit there)
+						el := simrt.Elapsed()
+						next := (el/int64(time.Second) + 1) * int64(time.Second)
+						simrt.Sleep(time.Duration(next-el) + time.Duration(simrt.Choose(400)-100)*time.Microsecond)
+					case 2:
+						// slow senders: sends spread over many seconds, overlapping the background
+						// goroutine's 5 s wake-ups
+						simrt.Sleep(time.Duration(800+simrt.Choose(1800)) * time.Millisecond)
 					}
 				}
 			})
